@@ -89,6 +89,7 @@ def run(tier):
         d = json.loads(line)
         by_file.setdefault(d["file"], []).append(d)
     ck.cov["single_faults_enumerated"] = r.exported
+    hung = 0
     for fi, fn in enumerate(files):
         singles = by_file.get(fn, [])
         if not singles:
@@ -122,8 +123,14 @@ def run(tier):
         if rc != 0:
             raise vlib.InfraError("c15-inject %s failed: %s" % (fn, err[-1500:]))
         judge(ck, outp, fn)
+        hung += sum(1 for l in open(outp) if '"e":"crash"' in l and '"Timeout"' in l)
         for c in chosen + combos:
             ck.count_case([fn, c["patch"]])
+        if hung >= 24:
+            # the library hangs on fault after fault (each costs the 25 s watchdog): the timeouts recorded so far are reported,
+            # the remaining files and the enumerated graphs are not run
+            ck.assumptions.append("stopped after %d timeouts: remaining inputs not run" % hung)
+            return ck.finish()
         if fi % 9 == 0 and chosen:
             ck.sample({"file": fn, "fault": chosen[0]})
     # ---- enumerated corrupt graphs
